@@ -464,6 +464,10 @@ class _Out:
         h = self.h
         (h.exit_text if h.exiting else h.round_text[h.i]).append(s)
         h.writes += 1
+        if s.endswith('\n') and not h.exiting:
+            k = h.round_lines
+            h.round_lines += 1
+            h.stop_here('written', k)   # the stop request lands right after the write returned
         return len(s)
 
     def flush(self):
@@ -475,7 +479,19 @@ class _In:
         self.h = h
 
     def readline(self):
-        self.h.acks += 1
+        h = self.h
+        if h.in_readline:
+            # what CPython does when a signal handler reads the stream its interrupted frame is reading
+            raise RuntimeError("reentrant call inside <_io.BufferedReader name='<stdin>'>")
+        if not h.exiting:
+            k = h.round_acks
+            h.round_acks += 1
+            h.in_readline = True
+            try:
+                h.stop_here('readline', k)   # the stop request lands while the helper waits for this acknowledgement
+            finally:
+                h.in_readline = False
+        h.acks += 1
         return 'done\n'
 
 
@@ -503,29 +519,46 @@ class Harness:
                 raise core.HarnessError(f'os.path.exists({path!r})')
             if h.i >= len(h.seq):
                 raise _Stop()
+            h.stop_here('begin', 0)
             return h.seq[h.i] == DIS
 
         def check(cmd, timeout):
             if h.i >= len(h.seq):
                 raise _Stop()
+            h.stop_here('begin', 0)   # (configurations without a disable file: the round begins with the check)
             h.checks += 1
             return h.seq[h.i] != FAIL
+
+        def deliver():
+            h.exiting = True
+            h.stops += 1
+            if h.stops > 1:
+                raise _Stop()
+            if h.exit_mode == 'term':
+                handler = h.handlers.get(real_signal.SIGTERM)
+                if handler is None:
+                    raise core.HarnessError('loop() installed no SIGTERM handler')
+                handler(real_signal.SIGTERM, None)
+                if not h.handler_may_return:
+                    raise core.HarnessError('SIGTERM handler returned')
+                return
+            raise KeyboardInterrupt()
+
+        def stop_here(kind, k):
+            """the stop request of this run, when it is due inside the last scripted round at this very point"""
+            if h.stop_at == (kind, k) and h.i == len(h.seq) - 1 and not h.exiting:
+                h.stop_at = None
+                h.partial = True
+                deliver()
+
+        self.stop_here = stop_here
 
         def sleep(n):
             h.sleeps.append(n)
             h.i += 1
-            if h.i >= len(h.seq):
-                h.exiting = True
-                h.stops += 1
-                if h.stops > 1:
-                    raise _Stop()
-                if h.exit_mode == 'term':
-                    handler = h.handlers.get(real_signal.SIGTERM)
-                    if handler is None:
-                        raise core.HarnessError('loop() installed no SIGTERM handler')
-                    handler(real_signal.SIGTERM, None)
-                    raise core.HarnessError('SIGTERM handler returned')
-                raise KeyboardInterrupt()
+            h.round_lines = h.round_acks = 0
+            if h.i >= len(h.seq) and not h.exiting:
+                deliver()
 
         def set_signal(num, handler):
             h.handlers[num] = handler
@@ -548,7 +581,7 @@ class Harness:
 
         hc.os = _Proxy(real_os, path=_Proxy(real_os.path, exists=exists))
         hc.time = _Proxy(real_time, sleep=sleep)
-        hc.signal = _Proxy(real_signal, signal=set_signal, alarm=forbidden)
+        hc.signal = _Proxy(real_signal, signal=set_signal, alarm=lambda n: h.alarms.append(n))
         hc.subprocess = _Proxy(real_subprocess, call=call, Popen=forbidden, check_call=forbidden)
         hc.sys = _Proxy(real_sys, stdout=_Out(self), stdin=_In(self), exit=sys_exit)
         hc.check = check
@@ -571,10 +604,18 @@ class Harness:
             self.options_memo[key] = o
         return o
 
-    def run(self, cfg, seq):
-        """-> dict(rounds=[[line,...]...], exit=[line,...], ended=..., error=...)"""
+    def run(self, cfg, seq, stop=None):
+        """-> dict(rounds=[[line,...]...], exit=[line,...], ended=..., error=...)
+        stop: None = the stop request comes in the sleep after the last scripted round; (kind, k) = it comes inside that round: 'begin' (as the
+        round begins / during the check), ('readline', k) while the helper waits for the acknowledgement of its line k, ('written', k) right after
+        line k was written.  A point the round never reaches leaves the request to the sleep."""
         self.seq = seq
         self.i = 0
+        self.stop_at = tuple(stop) if stop else None
+        self.partial = False
+        self.in_readline = False
+        self.handler_may_return = True   # a handler may also only take note of the request and let the loop act on it
+        self.round_lines = self.round_acks = 0
         self.exiting = False
         self.stops = 0
         self.exit_mode = cfg['exit']
@@ -584,6 +625,7 @@ class Harness:
         self.sleeps = []
         self.executed = []
         self.ipops = []
+        self.alarms = []
         self.acks = self.writes = self.flushes = self.checks = 0
         options = self.options(cfg)
         ended, error = 'returned', ''
@@ -613,8 +655,8 @@ class Harness:
         if text and not text.endswith('\n'):
             unterminated = True
         exit_lines = text.split('\n')[:-1] if text.endswith('\n') else (text.split('\n') if text else [])
-        return dict(rounds=rounds, exit=exit_lines, ended=ended, error=error, unterminated=unterminated,
-                    rounds_run=min(len(seq), self.i + (0 if self.exiting else 1)), acks=self.acks, writes=self.writes)
+        return dict(rounds=rounds, exit=exit_lines, ended=ended, error=error, unterminated=unterminated, partial=self.partial, stopped=self.exiting,
+                    rounds_run=min(len(seq), self.i + (0 if (self.exiting and not self.partial) else 1)), acks=self.acks, writes=self.writes)
 
 
 # ---------------------------------------------------------------------------------------------------
@@ -687,10 +729,10 @@ def _plan(cfg, daemon, targets, line, memo):
     return p
 
 
-def judge(cfg, seq):
+def judge(cfg, seq, stop=None):
     """Run one case.  -> (violations [(signature, what)], info dict)"""
     h = _harness()
-    res = h.run(cfg, seq)
+    res = h.run(cfg, seq, stop)
     d = _daemon(world_of(cfg))
     memo = _P.setdefault(('plan', cfg['name']), {})
     targets = _P.get(('targets', cfg['name']))
@@ -758,6 +800,8 @@ def judge(cfg, seq):
             if blind:
                 break
         want, tag = ref.must_be()
+        if res['partial'] and t == n_rounds - 1:
+            want = None   # the stop request came inside this round: what it had written so far is judged, not what it had yet to write
         if want is not None:
             for target, p in table.items():
                 if p not in want:
@@ -773,10 +817,10 @@ def judge(cfg, seq):
     if not blind:
         before = dict(table)
         apply(res['exit'], 'exit', hy.Hysteresis.exit_may_change)
-        if res['ended'] == 'interrupt' and not blind:
+        if (res['ended'] == 'interrupt' or (res['stopped'] and res['ended'] in ('exception', 'escaped', 'sysexit'))) and not blind:
             for t_, p0 in before.items():
                 if table[t_] not in hy.Hysteresis.exit_must_be(p0):
-                    bad('exit:not-withdrawn', f'stop request after {_word(seq)}: {wire.nlri_str(t_[1])}@{t_[0]} was {p0} and is {table[t_]} after the exit lines {res["exit"]}')
+                    bad('exit:not-withdrawn' + (f':{stop[0]}' if stop else ''), f'stop request ({cfg["exit"]}{", " + str(stop[0]) + " " + str(stop[1]) if stop else ""}) after {_word(seq)}: {wire.nlri_str(t_[1])}@{t_[0]} was {p0} and is {table[t_]} after the exit lines {res["exit"]}')
                     break
         elif res['ended'] == 'self' and cfg['interval'] != 0:
             bad('loop-returned-unasked', 'loop() returned without a stop request')
@@ -807,6 +851,18 @@ def _alphabet(cfg):
 _CFGS = None
 
 
+def stop_depth(tier):
+    return 4 if tier == 'quick' else 6
+
+
+def stop_points(cfg):
+    n = len(cfg['ips'])
+    pts = [('begin', 0)] + [('written', k) for k in range(n)]
+    if not cfg['no_ack']:
+        pts += [('readline', k) for k in range(n)]
+    return pts
+
+
 def _shard(args):
     global _CFGS
     tier, cfg_idx, lengths, shard = args
@@ -834,6 +890,16 @@ def _shard(args):
                 c.add_to_set('states', (cfg_idx,) + s)
             for sig, what in viols:
                 c.violation(sig, f'[{cfg["name"]}] {_word(seq)}: {what}', {'config': cfg, 'seq': list(seq)})
+            if length <= stop_depth(tier):
+                # the stop request inside the last round, at every point where the helper can be found waiting or between two steps
+                for stop in stop_points(cfg):
+                    viols, info = judge(cfg, seq, stop)
+                    c.count('executions')
+                    c.count('executions_stop_inside_round')
+                    c.count('transitions', info['rounds'])
+                    c.add_to_set('outcomes', info['trace'] + '/' + stop[0] + str(stop[1]) + ':' + info['ended'])
+                    for sig, what in viols:
+                        c.violation(sig, f'[{cfg["name"]}] {_word(seq)} stop at {stop}: {what}', {'config': cfg, 'seq': list(seq), 'stop': list(stop)})
     r = c.shard_result()
     r['distinct_lines'] = sorted(set(_daemon(world_of(cfg)).memo))
     return r
@@ -844,8 +910,8 @@ def run(ctx: core.Ctx) -> None:
     depth = int(os.environ.get('C20_DEPTH', '8' if ctx.tier == 'quick' else '11'))
     cfgs = configs()
     ctx.rule = ('every sequence over {ok, fail, disabled} of every length 1..%d (each its own run of the real loop(), ended by a stop '
-                'request so the exit path runs) x %d configurations; a case is non-trivial when the peers see at least two different '
-                'postures (up / down / disabled / withdrawn) before the stop request' % (depth, len(cfgs)))
+                'request so the exit path runs) x %d configurations; for the sequences of length <= %d the stop request (Ctrl-C or SIGTERM, by configuration) also inside the last round: as it begins, right after each line written, and while the helper waits for the acknowledgement of each line (a handler that reads the stream its interrupted frame is reading gets the RuntimeError CPython raises); a case is non-trivial when the peers see at least two different '
+                'postures (up / down / disabled / withdrawn) before the stop request' % (depth, len(cfgs), stop_depth(ctx.tier)))
     ctx.assumptions += [
         'reference hysteresis automaton vt/ref/hysteresis.py (statement clauses S1-S4, promptness P, tolerances T1-T6)',
         'reference UPDATE decoder vt/ref/wire.py',
@@ -884,5 +950,5 @@ def run(ctx: core.Ctx) -> None:
 
 def replay(case):
     hy.selftest()
-    viols, _info = judge(case['config'], tuple(case['seq']))
+    viols, _info = judge(case['config'], tuple(case['seq']), tuple(case['stop']) if case.get('stop') else None)
     return [{'signature': s, 'what': w} for s, w in viols]
